@@ -135,6 +135,21 @@ def execute(spec):
             s = v.schema()
             if vals and dtype_wire(s) != dtype_wire(d):
                 w["py_fail"] = f"Vector(values).schema()={s!r} differs from infer_dtype(values)={d!r}"
+            elif vals and len(vals) <= 4 and "py_fail" not in w:
+                # C03's "equivalently": writing any element back into its own position is accepted and changes nothing
+                import warnings
+                with warnings.catch_warnings():
+                    warnings.simplefilter("ignore")
+                    for i in range(len(vals)):
+                        try:
+                            v[i] = v[i]
+                        except Exception as e:
+                            w["py_fail"] = (f"writing element {i} ({vals[i]!r}) of Vector({vals!r}) back into its own position was refused: "
+                                            f"{type(e).__name__}")
+                            break
+                        if dtype_wire(v.schema()) != dtype_wire(s):
+                            w["py_fail"] = f"writing element {i} of Vector({vals!r}) back changed the dtype from {s!r} to {v.schema()!r}"
+                            break
         return w
     if fam == "promote":
         inv = {v: k for k, v in kind_codes().items()}
